@@ -45,7 +45,7 @@ def run_case(case):
         plan.append(("UniGen", 2))
     checked = 0
     for strat, n in plan:
-        r, err, st = D.run_strategy(p.spec, strat, n, 20)
+        r, err, st = D.run_strategy(p.spec, strat, n, 8 if strat == "RandomGen" else 20)
         if st != "ok" or err or r is None:
             counters["%s_%s" % (strat.lower(), st if st != "ok" else "raised")] = 1
             continue
